@@ -20,6 +20,8 @@ func hostileHistory(stream []byte, post bool, then string) []Action {
 		{Kind: "connect", Client: "WP", Opts: ConnectOpts{ClientID: "wp", Clean: true, KeepAlive: 65535}},
 		{Kind: "connect", Client: "WS", Opts: ConnectOpts{ClientID: "ws", Clean: true, KeepAlive: 65535}},
 		sub("WS", 1, "wit/ness", 1),
+		// a wildcard subscription of the witness below a prefix only the attacker publishes on
+		sub("WS", 6, "atk/#", 0),
 		pub("WP", "wit/ness", 1, 11, "before"),
 	}
 	if post {
@@ -89,6 +91,11 @@ func C05(c *core.Ctx) {
 			st = append(st, refcodec.Encode(&refcodec.Packet{Type: refcodec.PUBREL, ID: 21})...)
 		}
 		streams = append(streams, st)
+	}
+	// publishes whose topic name no subscriber may ever be shown: a NUL character [MQTT-1.5.3-2]
+	for _, tp := range []string{"atk/\x00", "atk/a\x00b", "\x00"} {
+		streams = append(streams, refcodec.Encode(&refcodec.Packet{Type: refcodec.PUBLISH, Topic: []byte(tp), Payload: []byte("nul")}),
+			refcodec.Encode(&refcodec.Packet{Type: refcodec.PUBLISH, Topic: []byte(tp), QoS: 1, ID: 31, Retain: true, Payload: []byte("nul")}))
 	}
 	// every cut point of a valid exchange
 	var exch []byte
